@@ -314,7 +314,7 @@ def lit(z, k):
 
 
 def named_table(name, es):
-    h = siphash24(name.encode('latin-1'), TABLE_K0, TABLE_K1)
+    h = siphash24(name.encode('latin-1') + b'\0', TABLE_K0, TABLE_K1)  # the literal's NUL is hashed too
     return ('tab', h, es, name)
 
 
